@@ -96,6 +96,15 @@ class CallMixin(object):
 
   def call_global(self, path, args, kw, st, star=None, dstar=None):
     last = path.rsplit('.', 1)[-1]
+    if self.contract is not None and path in self.contract.pure and self.contract.pure[path] != 'drop':
+      allargs = list(args) + [kw[k] for k in sorted(kw)]
+      yield st, self.pure_app(path, allargs, self.contract.pure[path], st)
+      return
+    if self.mode == 'event' and path in self.world.contracts and self.world.contracts[path].mode == 'event' \
+        and path not in self.contract.inline:
+      # another event-mode function (or a recursive call): an observable action labelled by its name
+      yield from self.call_opaque(None, args, kw, st, star, dstar, kind='call', label=path)
+      return
     if path in self.world.contracts and (self.contract is None or path not in self.contract.inline):
       if star is not None or dstar is not None:
         raise Unsupported('star call of contracted function')
@@ -114,8 +123,9 @@ class CallMixin(object):
         yield st, self.pure_app(path, allargs, rt, st)
       return
     if path.startswith('malt.utils.ag_logging.') or path.startswith('logging.'):
-      st.trace.append(Event('log', last, []))
-      yield st, VNone
+      if last in ('warning', 'warn', 'error'):
+        st.trace.append(Event('log', last, []))      # user-visible diagnostics are observable
+      yield st, VNone                                 # plain log lines are dropped by the extraction
       return
     if last in EXC_NAMES or path in self.world.pure.get('__exceptions__', ()):
       yield st, self.make_exception(last, args, st)
@@ -235,6 +245,15 @@ class CallMixin(object):
     raise Unsupported('default value expression')
 
   def inline_call(self, fn, args, kw, st):
+    # a closure called from the frame that defined it sees that frame's CURRENT bindings
+    hd = getattr(fn, 'home_depth', None)
+    if hd == self.inline_depth:
+      closure_env = st.env
+    elif hd is not None and hd < len(self.frame_envs):
+      closure_env = self.frame_envs[hd]       # suspended frame: its bindings at the time it made the call
+    else:
+      closure_env = fn.env
+    self.frame_envs.append(st.env)
     self.inline_depth += 1
     if self.inline_depth > 12:
       raise Unsupported('inlining too deep (recursion?) at %s' % fn.qualname)
@@ -244,7 +263,7 @@ class CallMixin(object):
         if isinstance(env, Exc):
           yield st, env
           return
-        full = dict(fn.env)
+        full = dict(closure_env)
         full.update(env)
         saved_env, saved_mod = st.env, self.cur_mod
         st.env = full
@@ -262,7 +281,7 @@ class CallMixin(object):
       if isinstance(env, Exc):
         yield st, env
         return
-      full = dict(fn.env)
+      full = dict(closure_env)
       full.update(env)
       saved_env, saved_mod = st.env, self.cur_mod
       st.env = full
@@ -287,6 +306,7 @@ class CallMixin(object):
           raise Unsupported('break/continue escaping a function')
     finally:
       self.inline_depth -= 1
+      self.frame_envs.pop()
 
   def nonlocal_names(self, fnode):
     out = set()
@@ -487,8 +507,10 @@ class CallMixin(object):
     st.trace.append(ev)
     # the callee may do anything to the heap except what the contract says it preserves
     self.opaque_havoc(st)
-    # exceptional return
-    if self.opaque_may_raise:
+    # exceptional return.  Event mode: outside any try / with body an exception of the callee simply
+    # propagates (Python semantics, identical for implementation and specification), so only calls
+    # that some handler or __exit__ can observe are forked.
+    if self.opaque_may_raise and (self.mode != 'event' or self.try_depth > 0):
       s2 = st.fork()
       s2.assume(z3.Bool('raises!' + tag))
       e = Exc('OpaqueException', payload=VRef(z3.Const('exc!' + tag, U), ANY), origin=tag)
@@ -663,6 +685,9 @@ class CallMixin(object):
     elif meth == 'setdefault':
       raise Unsupported('dict.setdefault')
     elif meth == 'update':
+      if self.mode == 'event':
+        yield from self.call_opaque(VBound(d, 'update'), args, kw, st)
+        return
       raise Unsupported('dict.update')
     else:
       raise Unsupported('dict method %s' % meth)
